@@ -72,6 +72,16 @@ class Pos(int, utype.Rule):
         return self.mix + 1
 
     @property
+    @utype.Field(dependencies=['mix'])
+    def mixb(self) -> int:
+        return self.mix * 2
+
+    @property
+    @utype.Field(dependencies=['mix2', 'mixb'])
+    def mixd(self) -> int:
+        return self.mix2 + self.mixb
+
+    @property
     def sp(self) -> int:
         return getattr(self, '_sp', 0)
 
@@ -90,7 +100,7 @@ FIELDS = {   # attname -> (output name, kind)
 }
 KEYS = {  # accepted spellings -> attname
     "req": "req", "opt": "opt", "pos": "pos", "name": "name", "Name": "name", "imm": "imm", "ci": "ci", "CI": "ci", "Ci": "ci", "CiAlt": "ci", "cialt": "ci",
-    "hidden": "hidden", "ex": "ex", "tags": "tags", "double": "double", "hsum": "double", "mix": "double", "mix2": "double", "sp": "double",
+    "hidden": "hidden", "ex": "ex", "tags": "tags", "double": "double", "hsum": "double", "mix": "double", "mix2": "double", "mixb": "double", "mixd": "double", "sp": "double",
 }
 UNKNOWN = ["zz", "x1"]
 _n = [0]
@@ -201,7 +211,7 @@ def check_invariants(inst, is_schema, options, initial_imm, step, inherit=False)
     # unknown keys
     if is_schema:
         for k, v in dict.items(inst):
-            if k not in [o for o, _ in FIELDS.values()] and k not in ("double", "hsum", "mix", "mix2", "sp"):
+            if k not in [o for o, _ in FIELDS.values()] and k not in ("double", "hsum", "mix", "mix2", "mixb", "mixd", "sp"):
                 if addition is None or addition is False:
                     fails.append((f"unknown-key-stored-although-addition-is-off/{step}", {"key": k}))
                 elif addition == "int" and type(v) is not int:
@@ -303,6 +313,17 @@ def check_invariants(inst, is_schema, options, initial_imm, step, inherit=False)
             fails.append((f"dependent-property-stale/of-a-property/attribute/{step}", {"mix": codec.encode(m), "mix2": codec.encode(m2)}))
         if is_schema and m == want and dict.__contains__(inst, "mix") and dict.__contains__(inst, "mix2") and dict.__getitem__(inst, "mix2") != want + 1:
             fails.append((f"dependent-property-stale/of-a-property/key/{step}", {"mix": codec.encode(m), "mix2": codec.encode(dict.__getitem__(inst, 'mix2'))}))
+        # ... also where two properties computed from one property feed a fourth (a diamond below a property)
+        if m == want and m2 == want + 1:
+            try:
+                md = getattr(inst, "mixd")
+            except Exception as e:
+                md = ("raised", type(e).__name__)
+            wd = (want + 1) + want * 2
+            if md != wd:
+                fails.append((f"dependent-property-stale/diamond/attribute/{step}", {"mix": codec.encode(m), "mixd": codec.encode(md), "expected": wd}))
+            if is_schema and dict.__contains__(inst, "mixd") and dict.__contains__(inst, "mixb") and dict.__getitem__(inst, "mixb") == want * 2 and dict.__getitem__(inst, "mixd") != wd:
+                fails.append((f"dependent-property-stale/diamond/key/{step}", {"mix": codec.encode(m), "mixd": codec.encode(dict.__getitem__(inst, 'mixd')), "expected": wd}))
     # (a property key whose dependency was deleted keeps its last value: tests/test_cls.py asserts that - "slug is not affected")
     return fails
 
